@@ -1,5 +1,6 @@
 import Karp.Driver.Proto
 import Karp.Model.Drain
+import Karp.Model.Rfc3339
 import Karp.Spec.Drain
 
 namespace Karp.Driver.C10
@@ -205,6 +206,30 @@ def parseMut (s : String) : Except String Mut :=
   | "replace" => pure .replace | "kill" => pure .kill
   | _ => throw s!"bad mutation {s}"
 
+/-- the harness's time origin (`base` in harness/internal/c10/world.go) in Unix nanoseconds: every time in the
+    protocol is an offset from it -/
+def harnessEpochNs : Int := 1800000000 * 1000000000
+
+/-- the value of the termination-timestamp annotation, read as RFC 3339, as an offset from the harness's origin -/
+def parseAnnotation (raw : String) : Option Int :=
+  (Karp.Rfc3339.parse raw.toList).map (· - harnessEpochNs)
+
+/-- what the termination controller finds for the node: `c` = NodeClaim shape ("" = exactly one, "none", "dup" =
+    two NodeClaims with the node's provider id), `a` = raw annotation value (null: derived from `d`, or absent
+    when `d` is null too) -/
+def parseSrc (j : Json) : Except String DeadlineSrc := do
+  let c := (← strO j "c").getD ""
+  let a ← strO j "a"
+  let d ← intO j "d"
+  match c with
+  | "none" | "dup" => pure .noClaim
+  | "" =>
+    match a, d with
+    | some raw, _ => pure (.annotation (parseAnnotation raw))
+    | none, some t => pure (.annotation (some t))
+    | none, none => pure .noAnnotation
+  | _ => throw s!"bad NodeClaim shape {c}"
+
 def parseStep (npods : Nat) (j : Json) : Except String Step := do
   let k ← strF j "k"
   match k with
@@ -212,7 +237,8 @@ def parseStep (npods : Nat) (j : Json) : Except String Step := do
     let ps ← natList (← fld j "ps")
     if ps.any (· ≥ npods) then throw "bad pod index"
     pure (.add (← intO j "d") ps)
-  | "drain" | "node" => pure (.drain (← intO j "d"))
+  | "drain" => pure (.drain (← intO j "d"))
+  | "node" => pure (.node (← parseSrc j))
   | "rec" =>
     let p ← natF j "p"
     if p ≥ npods then throw "bad pod index"
@@ -265,41 +291,60 @@ def parseImplItems (j : Json) : Except String Items := do
     if u < 0 then throw "queue holds a pod that is not part of the scenario"
     pure (u.toNat, (← intO e "d")))
 
+/-- which rule of a drain pass under deadline `D` was broken (diagnostics only) -/
+def explainDrain (s : State) (D : Option Int) (I' : Items) (calls : List Call) (r : String) : String :=
+  let I := s.q
+  let pods := livePods s
+  if r == "error" then "drain pass failed with an unexpected error"
+  else if !calls.isEmpty then "the drain pass itself sent a removal request"
+  else if !Spec.Drain.keptAndMonotone I I' then "a queued pod was dropped or its deadline moved later / was cleared by a drain pass"
+  else if !Spec.Drain.admittedOK pods D s.now I I' then
+    let bad := (Spec.Drain.keys I').find? (fun u =>
+      !(qget I' u == qget I u ||
+        (pods.any (fun p => p.uid == u && Spec.Drain.enqueueOK pods p D s.now)
+          && qget I' u == some (Spec.Drain.dmin ((qget I u).getD none) D))))
+    match bad with
+    | none => "admission rule"
+    | some u =>
+      match pods.find? (fun p => p.uid == u) with
+      | none => s!"pod {u} was queued although the API server does not list it"
+      | some p =>
+        if !Spec.Drain.mustWait p s.now then
+          s!"pod {u} was queued although the drain must not touch it (finished, static, tolerating the disruption taint, stuck terminating, or on another node)"
+        else if !Spec.Drain.enqueueOK pods p D s.now then
+          s!"daemon or critical pod {u} was queued for eviction while a non-critical non-daemon pod still awaits graceful eviction"
+        else s!"pod {u} is stored under a deadline other than the earlier of its previous deadline and this pass's"
+  else if !Spec.Drain.dueQueued pods D s.now I' then
+    match pods.find? (fun p => Spec.Drain.enqueueDue p D s.now &&
+        !(match qget I' p.uid with | some e' => Spec.Drain.dle e' D | none => false)) with
+    | none => "due rule"
+    | some p =>
+      let kind := if Spec.Drain.strictlyPastD p D s.now then "past deadline-minus-grace" else "non-critical non-daemon"
+      if (qget I' p.uid).isNone then s!"pod {p.uid} ({kind}) is waited for but was not queued by this pass"
+      else s!"pod {p.uid} ({kind}) is queued under a deadline later than this pass's (or none)"
+  else if !Spec.Drain.verdictOK pods s.now (r == "drained") then "drain reported completion while pods are still waited for"
+  else "drain rule"
+
 /-- which rule of the specification a step broke (diagnostics only; the verdict is `Spec.Drain.stepOK`) -/
 def explain (strict : Bool) (s : State) (st : Step) (I' : Items) (calls : List Call) (r : String) : String :=
   let I := s.q
   match st with
-  | .drain D =>
-    let pods := livePods s
-    if r == "error" then "drain pass failed with an unexpected error"
-    else if !calls.isEmpty then "the drain pass itself sent a removal request"
-    else if !Spec.Drain.keptAndMonotone I I' then "a queued pod was dropped or its deadline moved later / was cleared by a drain pass"
-    else if !Spec.Drain.admittedOK pods D s.now I I' then
-      let bad := (Spec.Drain.keys I').find? (fun u =>
-        !(qget I' u == qget I u ||
-          (pods.any (fun p => p.uid == u && Spec.Drain.enqueueOK pods p D s.now)
-            && qget I' u == some (Spec.Drain.dmin ((qget I u).getD none) D))))
-      match bad with
-      | none => "admission rule"
-      | some u =>
-        match pods.find? (fun p => p.uid == u) with
-        | none => s!"pod {u} was queued although the API server does not list it"
-        | some p =>
-          if !Spec.Drain.mustWait p s.now then
-            s!"pod {u} was queued although the drain must not touch it (finished, static, tolerating the disruption taint, stuck terminating, or on another node)"
-          else if !Spec.Drain.enqueueOK pods p D s.now then
-            s!"daemon or critical pod {u} was queued for eviction while a non-critical non-daemon pod still awaits graceful eviction"
-          else s!"pod {u} is stored under a deadline other than the earlier of its previous deadline and this pass's"
-    else if !Spec.Drain.dueQueued pods D s.now I' then
-      match pods.find? (fun p => Spec.Drain.enqueueDue p D s.now &&
-          !(match qget I' p.uid with | some e' => Spec.Drain.dle e' D | none => false)) with
-      | none => "due rule"
-      | some p =>
-        let kind := if Spec.Drain.strictlyPastD p D s.now then "past deadline-minus-grace" else "non-critical non-daemon"
-        if (qget I' p.uid).isNone then s!"pod {p.uid} ({kind}) is waited for but was not queued by this pass"
-        else s!"pod {p.uid} ({kind}) is queued under a deadline later than this pass's (or none)"
-    else if !Spec.Drain.verdictOK pods s.now (r == "drained") then "drain reported completion while pods are still waited for"
-    else "drain rule"
+  | .drain D => explainDrain s D I' calls r
+  | .node src =>
+    if Spec.Drain.unreadable src then
+      if r == "error" then "a controller pass that reported an error changed the queue or sent a removal request"
+      else
+        let madeUp := (Spec.Drain.keys I').find? (fun u =>
+          match qget I' u with
+          | some (some _) => !(qget I' u == qget I u)
+          | _ => false)
+        match madeUp with
+        | some u =>
+          s!"the NodeClaim's termination timestamp is not a timestamp, so no instant is the node deadline, yet pod {u} was queued under the deadline {((qget I' u).getD none).getD 0} ns (offset from the harness origin): a deadline of the controller's own making, under which the pod can be deleted directly"
+        | none =>
+          "the NodeClaim's termination timestamp cannot be read (no instant is the node deadline), yet the pass did not drain as for a node without a deadline: "
+            ++ explainDrain s none I' calls r
+    else explainDrain s (Spec.Drain.knownDeadline src) I' calls r
   | .recon i _ _ =>
     match s.pods[i]? with
     | none => "bad pod index"
